@@ -11,7 +11,7 @@ use crate::geom::{self, Family, P};
 use crate::statejson::{self, Params, ShapeSpec};
 
 pub const TITLE: &str = "The CLI writes the best replica, labelled with what was asked for";
-pub const RULE: &str = "part cli: (group, shape subcommand with options, potential, step settings) run with replications k = 1..kmax (kmax 2..4). Oracle per run: the score of the written structure (re-read from the .json) equals the maximum of the replica scores reported by the verif-hooks line of each replica and equals the logged 'Final score' (rel 1e-12); across k the written score never decreases (replicas are seeds 0..k-1, so k+1 replicas contain the first k); the JSON records the requested group name, the ITA crystal family of that group for wallpaper and cell, the requested shape (polygon: the documented vertices; circle/trimer: the documented discs or LJ particles with sigma = 2 r), the group's number of operations, and re-reading it yields that many placements. part ordering: vectors of 2..6 generated valid states of one shape; max() and cmp() must agree with the comparison of score(). Non-trivial = a run with k >= 2 and >= 2 distinct replica scores, or an ordering vector with >= 2 distinct scores; distinct by hash of the case.";
+pub const RULE: &str = "part cli: (group, shape subcommand with options, potential, step settings) run with replications k = 1..kmax (kmax 2..4). Oracle per run: the score of the written structure (re-read from the .json) equals the maximum of the replica scores reported by the verif-hooks line of each replica and equals the logged 'Final score' (rel 1e-12); across k the written score never decreases (replicas are seeds 0..k-1, so k+1 replicas contain the first k); the JSON records the requested group name, the ITA crystal family of that group for wallpaper and cell, the requested shape (polygon: the documented vertices; circle/trimer: the documented discs or LJ particles with sigma = 2 r), the group's number of operations, and re-reading it yields that many placements. part ladder: one argument set run with 1, 2, 3, 5, 8, ... replications (Fibonacci numbers up to 144; up to 6765 in the thorough tier, beyond the CLI default of 100): the logged score never decreases along the ladder. part ordering: vectors of 2..6 generated valid states of one shape; max() and cmp() must agree with the comparison of score(). Non-trivial = a run with k >= 2 and >= 2 distinct replica scores, or an ordering vector with >= 2 distinct scores; distinct by hash of the case.";
 
 pub fn assumptions() -> Vec<&'static str> {
     vec!["clause 'highest-scoring among its replicas' is decided exactly through the guarded hook (one line per replica); prefix monotonicity does not depend on the hook", "runs that exit non-zero are C20's subject and are skipped here"]
@@ -297,6 +297,80 @@ fn order_oracle(c: &OrderCase, rec: &Rec, _: &Ctx) -> Result<(), String> {
     Ok(())
 }
 
+// ------------------------------------------------------------------------------------------------
+// replication ladder: one argument set run with k = 1, 2, 3, 5, 8, ... replications (Fibonacci numbers, up to 144 in the
+// quick tier and 6765 in the thorough tier); the written score may never decrease along the ladder
+
+#[derive(Clone, Debug, Serialize, Deserialize)]
+pub struct LadderCase {
+    pub group: usize,
+    pub lj: bool,
+    pub steps: i64,
+}
+
+fn ladder_strat(_: &Ctx) -> BoxedStrategy<LadderCase> {
+    (0usize..7, any::<bool>(), prop_oneof![Just(0i64), Just(50i64)]).prop_map(|(group, lj, steps)| LadderCase { group, lj, steps }).boxed()
+}
+
+fn ladder_oracle(c: &LadderCase, rec: &Rec, ctx: &Ctx) -> Result<(), String> {
+    let top: i64 = if ctx.tier == crate::engine::Tier::Quick { 144 } else { 6765 };
+    let mut ks = vec![1i64, 2];
+    while *ks.last().unwrap() < top {
+        let n = ks[ks.len() - 1] + ks[ks.len() - 2];
+        ks.push(n);
+    }
+    let mut prev: Option<(i64, f64)> = None;
+    for k in ks.iter() {
+        let a = CliArgs {
+            group: geom::GROUP_NAMES[c.group].to_string(),
+            shape: CliShape::Circle,
+            potential: if c.lj { Some("LJ".to_string()) } else { None },
+            replications: Some(*k),
+            steps: Some(c.steps),
+            inner_steps: Some(50),
+            kt_start: Some(0.05),
+            kt_finish: None,
+            kt_ratio: None,
+            max_step_size: None,
+            convergence: None,
+            verbosity: 0,
+            start_config: None,
+        };
+        let dir = cli::scratch_dir(ctx);
+        let outfile = dir.join("out");
+        let r = cli::run(ctx, &a.to_argv(&outfile), &outfile, Some(8), 900);
+        let _ = std::fs::remove_dir_all(&dir);
+        let out = r?;
+        rec.eval(1);
+        if out.timed_out {
+            crate::mark_broken();
+            return Ok(());
+        }
+        if out.status != Some(0) {
+            rec.class("ladder/nonzero-exit-skipped");
+            return Ok(());
+        }
+        let score = out.final_score().ok_or("no 'Final score' line")?;
+        if let Some((pk, ps)) = prev {
+            if score < ps && !close(score, ps) {
+                return Err(format!("`packing {}`: {} replications give {} which is lower than the {} obtained with {} replications", a.to_argv(std::path::Path::new("out")).join(" "), k, score, ps, pk));
+            }
+        }
+        prev = Some((*k, score));
+    }
+    let class = format!("ladder/{}/up-to-{}", if c.lj { "lj" } else { "hard" }, top);
+    rec.class(&class);
+    rec.nontrivial(hash_json(&serde_json::to_value(c).unwrap()));
+    if rec.wants_sample(&class) {
+        rec.sample(&class, || serde_json::json!({"case": c, "ladder": ks, "final": prev}));
+    }
+    Ok(())
+}
+
 pub fn parts() -> Vec<PartDef> {
-    vec![part("cli", 400, 6_000, cli_strat, cli_oracle), part("ordering", 20_000, 600_000, order_strat, order_oracle)]
+    vec![
+        part("cli", 400, 6_000, cli_strat, cli_oracle),
+        part("ordering", 20_000, 600_000, order_strat, order_oracle),
+        crate::engine::part_opts("ladder", 8, 8, ladder_strat, ladder_oracle, |c: &LadderCase, _: &dyn Fn(&LadderCase) -> bool| c.clone(), crate::engine::PartOpts { max_shards: 2, max_shrink_iters: 4 }),
+    ]
 }
